@@ -93,7 +93,8 @@ def storeO (s : SetO) : List SetO → List SetO
 
 /-- the test of `discardShards` (negated: the set is kept) -/
 def keeps (n : Nat) (newest id : BitVec 32) : Bool :=
-  !(decide (itimediff (newest * u32 n) (id * u32 n) > (maxShardSets * n : Nat)))
+  !(decide (itimediff (newest * u32 n) (id * u32 n) > (maxShardSets * n : Nat)) ||
+    decide (itimediff (newest * u32 n) (id * u32 n) < 0))
 
 structure SetsG where
   sets : List SetO
@@ -126,7 +127,11 @@ structure DecOutO where
   rbufs     : List Nat       -- the buffers behind `recovered`: they now belong to the caller
   panic     : Bool
 
-/-- `decode(in)` -/
+/-- `decode(in)`.  Next to a `panic` flag of the model (an input longer than a pool buffer reaching
+`Get()[:len(in)]`, the re-slice of the recovery block beyond a buffer's capacity — both excluded by the
+callers, Props/C05Fec) the state and the log are those of the un-interrupted computation; the real
+code stops earlier, after a prefix of these events (the `Get`s come first), and a prefix of a
+disciplined log is disciplined (`C15_disciplined_prefix`). -/
 def decodeO (C : CodecNew) (o : DecO) (inp : Fec.Bytes) : DecOutO :=
   let r := o.dec.decode C inp
   if inp.length < fecHeaderSize then ⟨o, [], [], true⟩ else
@@ -150,7 +155,7 @@ def decodeO (C : CodecNew) (o : DecO) (inp : Fec.Bytes) : DecOutO :=
         let g2 := usePkts pkts g1                                   -- seqid/flag/len of every popped packet
         if (plain.filter fun q => flag q == typeData).length = dec1.d then
           let d := discardO dec1.n newest sets1 (putPkts pkts g2)
-          ⟨{ dec := r.st, sets := d.sets, gh := d.g }, r.recovered, [], false⟩
+          ⟨{ dec := r.st, sets := d.sets, gh := d.g }, r.recovered, [], r.panic⟩
         else
           let shards := gather dec1.n (maxBody plain) plain
           let g3 := usePkts pkts g2                                 -- padding, ReconstructData
@@ -158,13 +163,13 @@ def decodeO (C : CodecNew) (o : DecO) (inp : Fec.Bytes) : DecOutO :=
           match dec1.codec.recon shards with
           | some _ =>
             let d := discardO dec1.n newest sets1 (putPkts pkts nb.g)
-            ⟨{ dec := r.st, sets := d.sets, gh := d.g }, r.recovered, nb.ids, false⟩
+            ⟨{ dec := r.st, sets := d.sets, gh := d.g }, r.recovered, nb.ids, r.panic⟩
           | none =>
             let d := discardO dec1.n newest sets1 (putPkts pkts (putIds nb.ids nb.g))
-            ⟨{ dec := r.st, sets := d.sets, gh := d.g }, r.recovered, [], false⟩
+            ⟨{ dec := r.st, sets := d.sets, gh := d.g }, r.recovered, [], r.panic⟩
       else
         let d := discardO dec1.n newest (storeO { id := shardId, pkts := pkts } o.sets) g1
-        ⟨{ dec := r.st, sets := d.sets, gh := d.g }, r.recovered, [], false⟩
+        ⟨{ dec := r.st, sets := d.sets, gh := d.g }, r.recovered, [], r.panic⟩
 
 /-- `decode` followed by what its caller does with the recovered buffers (one `kcpInput`) -/
 def decodeRel (C : CodecNew) (o : DecO) (inp : Fec.Bytes) : DecO :=
